@@ -3,7 +3,7 @@ import numpy as np
 from hypothesis import strategies as st
 
 from vp import scene
-from vp.engine import SubCheck
+from vp.engine import SubCheck, target
 from vp.ref import meshadj
 
 PROPERTY = "C07"
@@ -198,11 +198,8 @@ def build_objs(case):
 
 
 def _target(value, label):
-    try:
-        from hypothesis import target
-        target(float(value), label=label)
-    except Exception:  # replay mode: no Hypothesis context
-        pass
+    # engine.target is a no-op when a saved case is replayed outside Hypothesis
+    target(float(value), label=label)
 
 
 # ---------------------------------------------------------------------------------------------
